@@ -8,6 +8,7 @@ from concurrent.futures import ThreadPoolExecutor
 import vf
 
 AREA = "C04"
+N_THEOREMS = 45          # theorems in coq/C04/Properties.v (a smaller number discharged = floor missed)
 
 # ------------------------------------------------------------------ ring families
 # name -> (kind, element type)
@@ -377,27 +378,34 @@ def _integral(ring):
 
 # /repo commits that repaired the defect (frag/C04.fix-<n>.diff); None = repair proposed, not applied yet (finding stays `known`)
 FIX = {1: "964499d", 2: "6fd4ec8", 3: "0c8663a", 4: "6534350", 5: "e1cb767", 6: "3b7f5ec", 7: "d8dba27", 8: "5a5d83b", 9: "8a3f862", 10: "1bd6bf3", 11: "99e44e4", 12: "8c01dc7",
-       13: None, 14: None, 15: None}
+       13: "b86ac06", 14: "df009ee", 15: "e6cb1e7", 16: None}
 
 
 _SRC_STATE = {}
+# the overload-selection conditions of Modular<integral>::init that Model.mi_init (and theorem C04_integral_dispatch_every_source) encode,
+# in declaration order; READ from /repo's modular-integral.h on every run and compared (whitespace-insensitive)
+EXPECTED_INIT_CONDITIONS = [
+    "IS_UINT(Source) && (sizeof(Source) >= sizeof(Storage_t))",
+    "IS_SINT(Source) && (sizeof(Source) > sizeof(Storage_t))",
+    "IS_FLOAT(Source) && IS_SINT(Storage_t)",
+    "IS_FLOAT(Source) && IS_UINT(Storage_t)",
+    "IS_UINT(Storage_t) &&!(IS_INT(Source) && (sizeof(Source) > sizeof(Storage_t))) &&!(IS_UINT(Source) && (sizeof(Source) == sizeof(Storage_t))) &&!IS_FLOAT(Source)",
+    "IS_SINT(Storage_t) &&!(IS_INT(Source) && (sizeof(Source) > sizeof(Storage_t))) &&!(IS_UINT(Source) && (sizeof(Source) == sizeof(Storage_t))) &&!IS_FLOAT(Source)",
+]
 
 
-def float_overloads_take_every_floating_source():
-    """READ from /repo's current modular-integral.h: is the fmod overload of init selected for EVERY floating source
-    (`IS_FLOAT(Source) && IS_SINT(Storage_t)`, frag/C04.fix-15.diff) or only for `sizeof(Source) >= sizeof(Storage_t)`?
-    The site / input class of a floating source narrower than the storage type (float into 64-bit storage) follows from it."""
-    if "float_all" not in _SRC_STATE:
-        st, lines = False, []
+def read_init_conditions():
+    """the enable_if conditions of the init overloads declared in /repo's modular-integral.h (text between the macro's `Source,` and the
+    closing parenthesis that precedes `inline Element& init`)"""
+    if "init_conditions" not in _SRC_STATE:
+        conds = None
         try:
             txt = open(os.path.join(vf.REPO, "src/kernel/ring/modular-integral.h")).read()
-            lines = [l.strip() for l in txt.splitlines() if "__GIVARO_CONDITIONAL_TEMPLATE" in l and "IS_FLOAT(Source)" in l and "IS_SINT(Storage_t)" in l]
-            st = bool(lines) and all("sizeof" not in l for l in lines)
+            conds = [re.sub(r"\s+", "", c) for c in re.findall(r"__GIVARO_CONDITIONAL_TEMPLATE\(Source,(.*?)\)\s*inline\s+Element&\s+init", txt, re.S)]
         except OSError:
             pass
-        _SRC_STATE["float_all"] = st
-        _SRC_STATE["float_overload_condition"] = lines
-    return _SRC_STATE["float_all"]
+        _SRC_STATE["init_conditions"] = conds
+    return _SRC_STATE["init_conditions"]
 
 
 def code_site(ring, src):
@@ -415,7 +423,7 @@ def code_site(ring, src):
             ov = "unsigned Source, sizeof >= Storage_t"
         elif isint and not uns and sbt > sb:
             ov = "signed Source, sizeof > Storage_t"
-        elif src in ("f", "d") and ((32 if src == "f" else 64) >= sb or float_overloads_take_every_floating_source()):
+        elif src in ("f", "d"):                 # (every floating source since fix-15; the label keeps its historical wording: it is a key)
             ov = "floating Source, sizeof >= Storage_t; %s storage" % st
         else:
             ov = "const Source& generic; %s storage" % st
@@ -445,10 +453,8 @@ def code_site(ring, src):
     return "%s::init(%s)" % (fam, ov)
 
 
-def defect_rules(float_all=None):
+def defect_rules():
     """(klass, ring predicate, sources, input domain (ring,src,m,x)->bool, what, fix number or None); first match wins"""
-    if float_all is None:
-        float_all = float_overloads_take_every_floating_source()
     tmin = lambda r, s, m, x: x == SRC_RANGE[s][0]
     LL = ("i32", "i64", "ll")
     neg = lambda r, s, m, x: x < 0
@@ -494,20 +500,19 @@ def defect_rules(float_all=None):
          "uint32_t went through the generic Caster<Element>(a): values >= 2^31 wrap to negative numbers", 6),
         ("unsigned-source-of-storage-width>=2^(N-1)", lambda r: r == "bi64", ("u64", "ull"), ge63,
          "uint64_t goes through the generic Caster<Element>(a): values >= 2^63 wrap to negative numbers", 10),
-    ] + ([
-        # (frag/C04.fix-15.diff is in /repo: every floating source takes the fmod overload, a float is reduced as a double)
+        # the remaining known defect: a modulus beyond 2^53 that is not a double is rounded by Wide(_p); only values that the wrong modulus
+        # can affect are in the class (|y| below both p and double(p) is returned unchanged / corrected with the exact _p)
         ("modulus-not-representable-in-source", lambda r: r in ("mi64w", "mu64w"), ("f", "d"),
-         lambda r, s, m, x: not float_representable(m, 53),
-         "fmod(y, double(_p)): a modulus beyond 2^53 is rounded to double, every residue is taken modulo the wrong number", None),
-    ] if float_all else [
-        ("modulus-not-representable-in-source", lambda r: r in ("mi32w", "mu32w", "mi64w", "mu64w"), ("f", "d"),
-         lambda r, s, m, x: _sbits(r) == (32 if s == "f" else 64) and not float_representable(m, 24 if s == "f" else 53),
-         "fmod(y, Source(_p)): the modulus is rounded to the floating source type, every residue is taken modulo the wrong number", 15),
+         lambda r, s, m, x: m > 2**53 and not float_representable(m, 53) and abs(x) >= min(m, int(float(m))),
+         "fmod(Wide(y), Wide(_p)) with Wide = double: a modulus beyond 2^53 that is not a double is rounded, residues are taken modulo the "
+         "wrong number (Modular<int64_t,__int128>, Modular<uint64_t,unsigned __int128> only)", None),
+        ("modulus-not-representable-in-source", lambda r: r in ("mi32w", "mu32w"), ("f",),
+         lambda r, s, m, x: not float_representable(m, 24),
+         "fmod(y, float(_p)): the modulus was rounded to the floating source type, every residue was taken modulo the wrong number", 15),
         ("float-beyond-element-range", lambda r: r in ("mi64", "mi64w"), ("f",), lambda r, s, m, x: abs(x) >= 2**63,
-         "generic init casts the float to int64_t before reducing: undefined for |y| >= 2^63", 15),
+         "generic init cast the float to int64_t before reducing: undefined for |y| >= 2^63", 15),
         ("float-beyond-element-range", lambda r: r in ("mu64", "mu64w"), ("f",), lambda r, s, m, x: abs(x) >= 2**64,
-         "generic init casts |y| to uint64_t before reducing: undefined for |y| >= 2^64", 15),
-    ]) + [
+         "generic init cast |y| to uint64_t before reducing: undefined for |y| >= 2^64", 15),
         ("float-beyond-element-range", lambda r: r in ("mru7", "mru67"), ("f", "d"), lambda r, s, m, x: abs(x) >= 2**64,
          "the floating value is cast to a 64-bit word before reducing: undefined for |y| >= 2^64", 14),
         ("float-equal-2^64", lambda r: r == "gfq64", ("f", "d"), lambda r, s, m, x: abs(x) == 2**64,
@@ -518,6 +523,14 @@ def defect_rules(float_all=None):
          "the generic template cast |a| to uint32_t before reducing: undefined for |a| >= 2^32", 6),
         ("float-beyond-element-range", lambda r: r == "mont32", ("f",), lambda r, s, m, x: abs(x) >= 2**63,
          "the generic template converts the float to int64_t before reducing: undefined for |a| >= 2^63", 9),
+        ("negative-rint-into-floating-element", lambda r: r in ("mf", "md", "mfd", "ef", "ed"), ("ri6", "ri7"),
+         lambda r, s, m, x: x < 0 and abs(x) <= recint_exact(RINGS[r][1]),
+         "Caster<Element>(a) = rint<K>::operator T() = static_cast<T>(Value): for a floating T the two's-complement limb of a negative value is "
+         "converted as an unsigned number (Modular<double>(101).init(x, rint<6>(-5)) gives 79, ModularExtended<double> gives -123)", 16),
+        ("recint-source-wider-than-element", lambda r: not RINGS[r][1].startswith("ru") and r not in ("mI", "gfq32", "gfq64", "log16"), ("ru6", "ru7", "ri6", "ri7"),
+         lambda r, s, m, x: abs(x) > recint_exact(RINGS[r][1]),
+         "a RecInt source reaches the word rings through the generic Caster<Element>(a), a static_cast that keeps the low limb / narrows / rounds "
+         "BEFORE the reduction: values the element type does not hold give a wrong residue", None),
         ("wider-than-element", lambda r: r in ("mru7", "mru67"), ("I",), lambda r, s, m, x: abs(x) >= 2**(128 if r == "mru7" else 64),
          "Caster<ruint<K>>(|a|) kept the low 2^K bits of the Integer before reducing", 7),
         ("dead-specialisation-beyond-exact-floating-range", lambda r: r == "ed", ("I", "i64", "u64", "f", "d"), lambda r, s, m, x: abs(x) >= 2**53,
@@ -561,18 +574,6 @@ def in_known_defect(ring, src, m, x):
     return False
 
 
-_RULES_UNREPAIRED = None
-
-
-def model_describes_unrepaired_body(ring, src, m, x):
-    """the Coq model follows /repo as it was when frag/C04.fix-13..15 were proposed: on the domains of those defects it describes the
-    unrepaired bodies.  Once a repair is in /repo the implementation agrees with the ORACLE there and the model is not compared."""
-    global _RULES_UNREPAIRED
-    if _RULES_UNREPAIRED is None:
-        _RULES_UNREPAIRED = [r for r in defect_rules(float_all=False) if r[5] in (13, 14, 15)]
-    return any(src in srcs and rp(ring) and dom(ring, src, m, x) for kl, rp, srcs, dom, what, fix in _RULES_UNREPAIRED)
-
-
 HOWS = ["copy", "assign-lo", "assign-hi", "defassign", "randiter", "copyassign"]
 HOW_TEXT = {"copy": "copy construction", "assign": "assignment over a domain of another modulus", "defassign": "assignment over a default-constructed domain",
             "randiter": "RandIter copy + RandIter::operator= (assigns the ring it refers to)", "copyassign": "copy construction of an assigned domain"}
@@ -607,17 +608,27 @@ def findings():
 
 
 # ------------------------------------------------------------------ running the implementation
-def run_impl(binary, lines, timeout=600):
-    """feed lines; survive a crash of the harness: the crashing line is reported as CRASH and the rest is resumed"""
+CASE_CPU = 20           # CPU seconds per case in the harness (ITIMER_PROF; a normal case takes microseconds, a table-ring construction < 2 s)
+CASE_CPU_RETRY = 120    # budget of the single re-run of a case that did not return
+MODEL_CPU = 1200        # CPU seconds for one ring's stream through the extracted model (normally 1-3 s)
+
+
+def run_impl(binary, lines, timeout=1800, slow=None):
+    """feed lines; survive a crash of the harness: the crashing line is reported as CRASH and the rest is resumed (the harness flushes the
+    completed answers in its signal handlers, so the attribution is exact).  A case that exhausts its CPU budget (harness exit 75 after a
+    HANG line) is re-run ALONE with a larger budget: if it still does not return it is reported as `HANG`, a concrete failing input; if it
+    does, its answer is used and the case is recorded in `slow`.  A wall-clock time-out of the whole stream leaves TIMEOUT lines
+    (inconclusive, never a failure)."""
     out = []
     rest = list(lines)
     guard = 0
+    nhang = 0
     while rest and guard < 60:
         guard += 1
-        rc, o, err = vf.run_lines(binary, "".join(l + "\n" for l in rest), timeout=timeout)
+        rc, o, err = vf.run_lines(binary, "".join(l + "\n" for l in rest), timeout=timeout, args=(str(CASE_CPU),))
         o = [l for l in o if not l.startswith("#")]
         if rc == 124 and err == "[timeout]":
-            # our own tooling ran out of time (machine load): the unanswered cases are inconclusive, not failures of the property
+            # our own tooling ran out of WALL time (machine load): the unanswered cases are inconclusive, not failures of the property
             n = min(len(o), len(rest))
             if n and n < len(rest):
                 n -= 1                       # the last line may be cut
@@ -626,12 +637,79 @@ def run_impl(binary, lines, timeout=600):
             out += o
             rest = []
             break
+        if rc == 75 and o and o[-1] == "HANG" and len(o) <= len(rest):
+            n = len(o) - 1
+            out += o[:n]
+            if nhang >= 2:
+                # two cases of this stream were already confirmed not to return with the large budget: further ones are not re-run
+                out.append("HANG")
+                rest = rest[n + 1:]
+                continue
+            rc2, o2, err2 = vf.run_lines(binary, rest[n] + "\n", timeout=timeout, args=(str(CASE_CPU_RETRY),))
+            o2 = [l for l in o2 if not l.startswith("#")]
+            if rc2 == 0 and len(o2) == 1:
+                out.append(o2[0])
+                if slow is not None:
+                    slow.append(rest[n])
+            elif rc2 == 124 and err2 == "[timeout]":
+                out.append("TIMEOUT")
+            elif rc2 == 75:
+                out.append("HANG")
+                nhang += 1
+            else:
+                out.append("CRASH rc=%s" % rc2)
+            rest = rest[n + 1:]
+            continue
         n = min(len(o), len(rest) - 1)
         out += o[:n]
         out.append("CRASH rc=%s" % rc)
         rest = rest[n + 1:]
     out += ["CRASH guard"] * len(rest)
     return out
+
+
+def recint_exact(elt):
+    """largest |v| of a RecInt source that the generic `Caster<Element>(a)` path of a word ring preserves: what the element type holds"""
+    if elt == "I":
+        return 2**200
+    lo, hi = ELT_RANGE.get(elt, (-2**63, 2**63))
+    return hi
+
+
+def recint_filter(vals, elt):
+    """RecInt sources into the word rings (generic Caster<Element>(a)): every value, of either sign, whose magnitude the element type holds
+    (negative rint values included: phase 4); wider values are the class `recint-source-wider-than-element` (see recint_wide)"""
+    b = recint_exact(elt)
+    return [v for v in vals if abs(v) <= b]
+
+
+def recint_wide(src, m):
+    """a few deterministic RecInt values beyond every word element type (known class: the conversion narrows before the reduction)"""
+    lo, hi = SRC_RANGE[src]
+    return [v for v in (2**64 + 5, -(2**64) - 5, hi, lo, 3 * m * 2**70 + 1) if lo <= v <= hi and abs(v) > 2**63]
+
+
+# call forms that do NOT exist in givaro (found by compiling every pair; harness/c04_allow.inc + SFINAE detection): '<ring> <op> <source / convert target>'.
+# Any OTHER absent form (NOFORM line, '-' convert / round-trip field) means an overload or convert form that existed is gone: a broken obligation.
+EXPECTED_ABSENT = set('''
+gfq32 convert i16, gfq32 convert u16, gfq32 init ll, gfq32 init ri6, gfq32 init ri7, gfq32 init ru6,
+gfq32 init ru7, gfq32 init ull, gfq32 rt i16, gfq32 rt ll, gfq32 rt ri6, gfq32 rt ri7,
+gfq32 rt ru6, gfq32 rt ru7, gfq32 rt ull, gfq64 convert i16, gfq64 convert u16, gfq64 init ll,
+gfq64 init ri6, gfq64 init ri7, gfq64 init ru6, gfq64 init ru7, gfq64 init ull, gfq64 rt i16,
+gfq64 rt ll, gfq64 rt ri6, gfq64 rt ri7, gfq64 rt ru6, gfq64 rt ru7, gfq64 rt ull,
+log16 convert f, log16 init ll, log16 init ri6, log16 init ri7, log16 init ru6, log16 init ru7,
+log16 init ull, log16 rt f, log16 rt ll, log16 rt ri6, log16 rt ri7, log16 rt ru6,
+log16 rt ru7, log16 rt ull, mI const@randiter -, mI init ll, mI init ull, mI init@randiter I,
+mI init@randiter d, mI init@randiter f, mI init@randiter i32, mI init@randiter i64, mI init@randiter i8, mI init@randiter u16,
+mI init@randiter u32, mI init@randiter u64, mI rt ll, mI rt ull, mi16w init ri6, mi16w init ri7,
+mi16w init ru6, mi16w init ru7, mi16w rt ri6, mi16w rt ri7, mi16w rt ru6, mi16w rt ru7,
+mi8w init ri6, mi8w init ri7, mi8w init ru6, mi8w init ru7, mi8w rt ri6, mi8w rt ri7,
+mi8w rt ru6, mi8w rt ru7, mru67 init ri7, mru67 init ru7, mru67 rt ri7, mru67 rt ru7,
+mu16w init ri6, mu16w init ri7, mu16w init ru6, mu16w init ru7, mu16w rt ri6, mu16w rt ri7,
+mu16w rt ru6, mu16w rt ru7, mu8w init ri6, mu8w init ri7, mu8w init ru6, mu8w init ru7,
+mu8w rt ri6, mu8w rt ri7, mu8w rt ru6, mu8w rt ru7,
+'''.replace('\n', ' ').split(','))
+EXPECTED_ABSENT = {e.strip() for e in EXPECTED_ABSENT if e.strip()}
 
 
 KP_COV = {}
@@ -684,8 +762,7 @@ def gen_cases(rings, cards, rng, tier):
                 if src in RECINT_SRCS and not elt.startswith("ru"):
                     # RecInt sources reach the word rings through the generic `Caster<Element>(a)`, a plain static_cast that
                     # keeps the low word / rounds to double: only values the element type holds exactly are in the claim here
-                    elo, ehi = ELT_RANGE.get(elt, (-2**63, 2**63))
-                    vals = [v for v in vals if max(0, elo) <= v <= ehi and v < 2**31][::2]
+                    vals = recint_filter(vals, elt)[::2] + recint_wide(src, m)
                 elif src in SMALL_SRCS and quick:
                     vals = vals[::2] + vals[-2:]
                 for x in vals:
@@ -710,8 +787,7 @@ def gen_cases(rings, cards, rng, tier):
                         KP_COV.setdefault("extended_reduce_tail", {}).setdefault(ring + "/" + c, set()).add((src, m, v))
                     vals = sorted(set(vals))
                 if src in RECINT_SRCS and not elt.startswith("ru"):
-                    elo, ehi = ELT_RANGE.get(elt, (-2**63, 2**63))
-                    vals = [v for v in vals if max(0, elo) <= v <= ehi and v < 2**31]
+                    vals = recint_filter(vals, elt)
                 KP_COV["cases"] = KP_COV.get("cases", 0) + len(vals)
                 for x in vals:
                     cases.append(("init", ring, src, p, k, x, ""))
@@ -744,14 +820,21 @@ def main(tier, replay=None):
         "harness/c04_init.C, checks/C04.py (case generator, python big-integer oracle)", "g++ 12 / x86-64 (-O2 -march=native, FMA contraction as compiled) for the implementation side",
     ]
     chk.assumptions = ["model is hand-written after the init/convert bodies; tie = correspondence on generated cases for every (ring, source type) pair",
-                       "bodies repaired by frag/C04.fix-1..12 (all in /repo) are modelled in repaired form; frag/C04.fix-13..15 are proposed: the model describes "
-                       "the unrepaired bodies on those defect domains and is not compared there once the implementation agrees with the oracle",
+                       "bodies repaired by frag/C04.fix-1..15 (all in /repo) are modelled in repaired form; the model is compared with the implementation "
+                       "on every case whose implementation result agrees with the oracle (no exempt domain)",
                        "ModularExtended: the harness is compiled with -march=native (FP_FAST_FMA variant of reduce); the SSE/Dekker variant computes the same "
                        "exact remainder and shares the correction tail"]
     # 1. proofs
+    inconclusive = {}      # probes cut by a WALL-clock time-out of our own tooling: listed in the evidence, never counted as passed
+    slow_cases = []        # cases that exceeded the per-case CPU budget inside a stream but returned when re-run alone
     if os.path.exists(os.path.join(vf.coq_dir(AREA), "Properties.v")):
-        res = vf.coq_check_props(AREA, timeout=900)
-        chk.proof_result(res, AREA)
+        res = vf.coq_check_props(AREA, timeout=3000)
+        if not res["ok"] and not res["forbidden"] and "[timeout after" in res["log"]:
+            # the Coq build ran into the wall-clock limit (machine load): the theorems were NOT re-checked in this run
+            chk.cov["obligations"] += len(res["theorems"])
+            inconclusive["Coq build of coq/C04 (wall-clock time-out 3000 s): theorems not re-checked"] = len(res["theorems"])
+        else:
+            chk.proof_result(res, AREA)
     else:
         ok, out = vf.coq_make(AREA, timeout=900)
         chk.broke("coq/C04/Properties.v is missing", out)
@@ -806,12 +889,16 @@ def main(tier, replay=None):
 
     def run_ring(ring):
         cs = by_ring[ring]
-        io = run_impl(himpl[ring], [impl_line(c) for c in cs])
+        io = run_impl(himpl[ring], [impl_line(c) for c in cs], slow=slow_cases)
         mo = None
         if drv:
-            rc, mo, merr = vf.run_lines(drv, "".join(model_line(c) + "\n" for c in cs), timeout=1500)
+            # the model stream runs under a CPU-time limit (RLIMIT_CPU via `ulimit -t`: load-independent); a wall-clock time-out is inconclusive
+            rc, mo, merr = vf.run_lines("/bin/sh", "".join(model_line(c) + "\n" for c in cs), timeout=3000,
+                                        args=("-c", "ulimit -t %d; exec '%s'" % (MODEL_CPU, drv)))
             if rc == 124 and merr == "[timeout]":
                 mo = "TIMEOUT"
+            elif rc in (-24, -9, 152, 137):
+                mo = "the extracted model did not finish ring %s within %d s of CPU time (%d cases): a model function does not terminate in reasonable time" % (ring, MODEL_CPU, len(cs))
             elif rc != 0 or len(mo) != len(cs):
                 mo = "model driver failed on ring %s (rc=%s, %d/%d lines) %s" % (ring, rc, len(mo), len(cs), merr[-500:])
         return ring, (io, mo)
@@ -822,8 +909,8 @@ def main(tier, replay=None):
     bad_init = set()
     ncorr = 0
     nub = 0
-    nrepaired = 0
-    inconclusive = {}      # streams cut by a time-out of our own tooling: recorded, never a violation
+    absent = set()        # call forms that do not exist (NOFORM / '-'): compared with EXPECTED_ABSENT below
+    ubd = {}
     for ring in sorted(by_ring):
         kind, elt = RINGS[ring]
         io, mo = results[ring]
@@ -841,6 +928,7 @@ def main(tier, replay=None):
             site = code_site(ring, src) if op != "const" else "%s::constants" % RING_CXX[ring]
             inst = "%s::init(%s)" % (RING_CXX[ring], SRC_CXX.get(src, src))
             if line == "NOFORM":
+                absent.add("%s %s %s" % (ring, op if not how else op + "@" + how.split(":")[0], src))
                 continue
             if line == "TIMEOUT":
                 inconclusive["implementation stream of " + ring] = inconclusive.get("implementation stream of " + ring, 0) + 1
@@ -857,6 +945,10 @@ def main(tier, replay=None):
             nfail = len(chk.failing)
             if len(chk.cov["samples"]) < 12 and i % 1499 == 7:
                 chk.sample({"case": case, "impl": line, "model": mo[i] if mo is not None else None})
+            if line == "HANG":
+                chk.fail_input(site, kl, case, "a result", "does not return",
+                               "the call did not return within %d s of CPU time (re-run alone after exceeding %d s inside the stream)" % (CASE_CPU_RETRY, CASE_CPU))
+                continue
             if line.startswith("CRASH") or line.startswith("BAD"):
                 chk.fail_input(site, kl, case, "a result", line, "the call crashed (or the harness refused the input)")
                 continue
@@ -868,6 +960,7 @@ def main(tier, replay=None):
                 else:
                     for form, got in zip(CONV_FORMS, t[1:]):
                         if got == "-":
+                            absent.add("%s convert %s" % (ring, form))
                             continue
                         dist["convert<%s>" % SRC_CXX[form]] = dist.get("convert<%s>" % SRC_CXX[form], 0) + 1
                         rg = CONV_RANGE[form]
@@ -893,15 +986,9 @@ def main(tier, replay=None):
                     bad_init.add((ring, src, p, k, x, how))
                 # correspondence
                 if ml is not None and len(chk.failing) == nfail and ml[0] not in ("NOMODEL",):
-                    if in_known_defect(ring, src, m, x) or model_describes_unrepaired_body(ring, src, m, x):
-                        # the input lies in the domain of a defect listed as unrepaired, yet the implementation agrees with the oracle:
-                        # the repair has reached /repo.  The model still describes the unrepaired body on this domain only: not compared.
-                        if ml[0] != "UB" and ml[0] == (t[1] if kind == "tab" else t[0]):
-                            ncorr += 1
-                        else:
-                            nrepaired += 1
-                    elif ml[0] == "UB":
+                    if ml[0] == "UB":
                         nub += 1
+                        ubd[ring + "/" + src] = ubd.get(ring + "/" + src, 0) + 1
                     else:
                         ncorr += 1
                         got_m = t[1] if kind == "tab" else t[0]
@@ -919,14 +1006,14 @@ def main(tier, replay=None):
                     if in_known_defect(ring, form, m, want_lift):
                         continue        # init from this intermediate type is a known defect for this value (reported by the init cases)
                     if got == "-":
+                        absent.add("%s rt %s" % (ring, form))
                         continue        # the ring has no such convert / init form
                     dist["rt-through/" + form] = dist.get("rt-through/" + form, 0) + 1
                     if got != t[0]:
                         chk.fail_input(code_site(ring, form) + "/roundtrip",
                                        klass_of(ring, form, m, want_lift), case, t[0], got, "init(convert<%s>(e)) != e" % form)
                         break
-                if ml is not None and len(chk.failing) == nfail and ml[0] not in ("NOMODEL", "UB") and kind != "tab" and not in_known_defect(ring, src, m, x) \
-                        and not model_describes_unrepaired_body(ring, src, m, x):
+                if ml is not None and len(chk.failing) == nfail and ml[0] not in ("NOMODEL", "UB") and kind != "tab":
                     ncorr += 1
                     for j, form in enumerate(RT_FORMS):
                         rg = CONV_RANGE[form]
@@ -957,6 +1044,39 @@ def main(tier, replay=None):
                     ncorr += 1
                     if ml[:3] != t[:3] or ml[3] != t[6]:
                         chk.broke("correspondence (constants): model and implementation differ on %s m=%d: model=%s impl=%s" % (site, m, ml, t[:3] + [t[6]]))
+    # 4.9 absent call forms: only the ones listed in EXPECTED_ABSENT may be missing
+    gone = sorted(absent - EXPECTED_ABSENT)
+    if gone and not replay:
+        chk.broke("call forms of init / convert that the check drives are no longer there (NOFORM / '-' from the harness): %s" % ", ".join(gone[:20]),
+                  "an init overload or convert form was removed or no longer compiles for this (ring, type) pair; all: %r" % gone)
+    chk.cov["absent_call_forms"] = {"expected_and_absent": len(absent & EXPECTED_ABSENT), "unexpectedly_absent": gone,
+                                    "listed_absent_but_not_met_in_this_run": sorted(EXPECTED_ABSENT - absent)}
+    # 4a. the hypotheses of the theorems against the source / the build: (i) the enable_if conditions Model.mi_init encodes, read from the header;
+    #     (ii) every modulus bound that occurs in a theorem statement (ring_ok of C04_every_family_every_source) against the cardinalities the
+    #     compiled implementation prints
+    conds = read_init_conditions()
+    want_conds = [re.sub(r"\s+", "", c) for c in EXPECTED_INIT_CONDITIONS]
+    if conds != want_conds:
+        chk.broke("the overload-selection conditions of Modular<integral>::init in modular-integral.h are not the ones Model.mi_init / "
+                  "C04_integral_dispatch_every_source encode", "read: %r\nexpected: %r" % (conds, want_conds))
+    # ring -> (largest modulus the theorems cover, theorem that states the bound)
+    THEOREM_BOUND = {"mf": 2**24, "mfd": 2**24, "md": 2**53, "ef": 2**23, "ed": 2**52, "mont32": 40503, "log16": 2**15 - 1,
+                     "gfq32": 2**31, "bi32": 2**31 - 1, "bi64": 2**63 - 1, "bd": None, "bf": None, "mI": None, "mru7": 2**128 - 1, "mru67": 2**64 - 1}
+    for r in RINGS:
+        if _integral(r):
+            THEOREM_BOUND[r] = SRC_RANGE[RINGS[r][1]][1]               # admissible St p: p <= tmax St
+    bounds_checked = {}
+    for r, bnd in sorted(THEOREM_BOUND.items()):
+        if r not in cards:
+            continue
+        lo_c, hi_c = cards[r]
+        if r in GFQ_FIELDS:
+            hi_c = max(pp**kk for pp, kk in GFQ_FIELDS[r])               # GFqDom: the fields the check builds (q, not maxCardinality)
+        bounds_checked[r] = [hi_c, bnd]
+        if bnd is not None and hi_c >= lo_c and hi_c > bnd:
+            chk.broke("maxCardinality of %s is %d: beyond the modulus bound %d of the theorems of this family (ring_ok in "
+                      "C04_every_family_every_source)" % (RING_CXX[r], hi_c, bnd))
+    chk.cov["theorem_modulus_bounds_vs_built_cardinalities"] = bounds_checked
     # 4b. ModularExtended::reduce.  (i) the theorems C04_extended_* hold for p <= 2^(prec-1): re-checked against the maxCardinality the
     #     compiled implementation reports; (ii) the value handed to the correction tail, as the extracted model computes it, against the
     #     generator's independent exact-rational re-computation, on every input of the boundary classes (tail == p, tail < 0, none)
@@ -994,6 +1114,8 @@ def main(tier, replay=None):
             print("%-60s %-40s n=%-5d e.g. p=%s k=%s x=%s want=%s got=%s" % (key[0], key[1], len(agg[key]), f["case"]["p"], f["case"]["k"], f["case"]["x"], f["expected"], f["observed"]))
         for b in chk.broken:
             print("BROKE", b["what"][:300])
+        print("UB", sorted(ubd.items()))
+        print("ABSENT", sorted(absent))
         print("cases", len(cases), "failing", len(chk.failing), "tie-compared", ncorr, "model-UB", nub)
         return 0
     chk.cov["rule"] = ("every ring family x every source type x boundary moduli (2,3,max,max-1,2^k+-1,random) x boundary values (0,+-1,m-1,m,m+1,"
@@ -1001,8 +1123,23 @@ def main(tier, replay=None):
                        "+ the ModularExtended correction-tail classes; non-trivial = x<0 or |x|>=m; distinct = (op,ring,src,p,k,x)")
     chk.cov["traces_validated_against_impl"] = ncorr
     chk.cov["model_leaves_defined_behaviour"] = nub
-    chk.cov["inconclusive_streams_timeout_of_own_tooling"] = inconclusive
-    chk.cov["inputs_in_a_listed_defect_domain_on_which_the_implementation_is_correct"] = nrepaired
+    chk.cov["model_leaves_defined_behaviour_by_ring_and_source"] = ubd
+    # floor on what was actually compared / re-checked in this run
+    noracle = chk.cov.get("evaluations", 0)
+    floor = {"oracle comparisons (cases)": (noracle, 450000 if tier == "quick" else 600000),
+             "correspondence comparisons (model vs implementation)": (ncorr, 400000 if tier == "quick" else 500000),
+             "theorems re-checked": (chk.cov.get("discharged", 0), N_THEOREMS),
+             "ModularExtended tail == p inputs": (sum(v for k, v in chk.cov.get("extended_reduce_tail_classes", {}).items() if k.endswith("tail==p")), 1000)}
+    missed = {k: {"got": g, "floor": f} for k, (g, f) in floor.items() if g < f}
+    chk.cov["inconclusive"] = inconclusive
+    chk.cov["slow_cases_rerun_alone"] = slow_cases[:20]
+    chk.cov["floor"] = {k: {"got": g, "floor": f} for k, (g, f) in floor.items()}
+    if not replay:
+        chk.cov["floor_missed"] = missed
+        if missed and not inconclusive:
+            chk.broke("the run compared less than its floor although no tooling time-out occurred: %r" % missed)
+        elif missed:
+            print("INCONCLUSIVE: property=C04 tooling time-outs %r; below the floor: %r" % (sorted(inconclusive), missed), flush=True)
     chk.cov["distribution_by_ring_and_source"] = {k: v for k, v in dist.items() if "/" in k and not k.startswith(("rt-through/", "how/"))}
     # every public call form of the operations the property names, with the number of cases that drove it
     forms = {}
@@ -1020,6 +1157,5 @@ def main(tier, replay=None):
             nm = "zero, one, mOne, init(e), init(e, int64_t(-1))" if src == "-" else "init(e, const %s&)" % SRC_CXX[src]
             forms[nm] = forms.get(nm, 0) + v
     chk.cov["call_forms"] = forms
-    chk.cov["overload_condition_read_from_source"] = {"modular-integral.h floating init": _SRC_STATE.get("float_overload_condition", []),
-                                                      "every floating source takes the fmod overload (fix-15)": bool(_SRC_STATE.get("float_all"))}
+    chk.cov["overload_conditions_read_from_source"] = {"modular-integral.h init overloads": read_init_conditions()}
     return chk.finish()
